@@ -166,6 +166,24 @@ func colorClassForIndividual(individual *gedcom.IndividualNode) string {
 	return colorClassForSex(individual.Sex())
 }
 
+// isReservedPageKey is true for the keys of the pages that always have the same
+// file name (see PagePlaces and friends). No individual or place can use them.
+func isReservedPageKey(key string) bool {
+	switch key {
+	case "places", "families", "surnames", "sources", "statistics":
+		return true
+	}
+
+	// See PageIndividuals.
+	if strings.HasPrefix(key, "individuals-") {
+		letter := strings.TrimPrefix(key, "individuals-")
+
+		return letter == "symbol" || len(letter) == 1
+	}
+
+	return false
+}
+
 func getUniqueKey(individualMap map[string]*gedcom.IndividualNode, s string, placesMap map[string]*place) string {
 	i := -1
 	for {
@@ -174,6 +192,10 @@ func getUniqueKey(individualMap map[string]*gedcom.IndividualNode, s string, pla
 		testString := s
 		if i > 0 {
 			testString = fmt.Sprintf("%s-%d", s, i)
+		}
+
+		if isReservedPageKey(testString) {
+			continue
 		}
 
 		if _, ok := individualMap[testString]; ok {
